@@ -319,6 +319,23 @@ def is_risky(ast):
             if b[0] not in ATOMS: return True
     return False
 
+def nullable(n):
+    k = n[0]
+    if k in ATOMS: return False
+    if k in ('empty', 'bol', 'eol'): return True
+    if k == 'grp': return nullable(n[1])
+    if k == 'seq': return all(nullable(c) for c in n[1])
+    if k == 'alt': return any(nullable(c) for c in n[1])
+    if k == 'rep': return n[2] == 0 or nullable(n[1])
+    raise ValueError(n)
+
+def nested_nullable_closure(ast):
+    """an unbounded quantifier (* + {n,}) over a body that can match the empty string and itself contains an unbounded quantifier"""
+    for n in walk(ast):
+        if n[0] == 'rep' and n[3] is None and nullable(n[1]):
+            if any(m[0] == 'rep' and m[3] is None for m in walk(n[1])): return True
+    return False
+
 def first_success_quantifier(ast):
     """pattern contains a quantifier that Xerces compiles to closure/question operations (everything except '?' and {n})"""
     for n in walk(ast):
